@@ -1,5 +1,6 @@
 mod ast;
 mod core;
+mod gen_eval;
 mod gen_syn;
 mod jr;
 mod props;
